@@ -598,3 +598,13 @@ def explanatory_state_round_trip_recreates_the_evaluators(K, equation):
                  K.real_eq(K.call(K.attr(back, "eval_residual"), X, t), K.call(K.attr(e, "eval_residual"), X, t)))
     else:
         K.ensure("an identity has no residual evaluator, before and after", K.getattr(back, "eval_residual") is None)
+
+
+# ------------------------------------------------------------------------------ an operation applied to a multi-variant model reaches every variant
+# "Variant k behaves like a single-variant model with variant k's values" also after an operation on the whole model:
+# rescale_stds must rescale EVERY variant (the contract is the one proved for C15, registered here as well).
+from contracts.c15_acov import rescaling_reaches_every_standard_deviation_of_every_variant as _rescale_all   # noqa: E402
+
+contract("C20", name="an_operation_on_the_model_reaches_every_variant",
+         targets=["irispie.simultaneous._covariances:Inlay.rescale_stds", "irispie.simultaneous._get:Inlay._get_std_qids", "irispie.simultaneous._variants:Variant.rescale_values"],
+         instances=[()], cross=0, opts={"max_paths": 100})(_rescale_all)
